@@ -92,7 +92,11 @@ class World:
         self.server = None
 
     async def __aenter__(self):
+        import asimap.client
         from asimap.user_server import IMAPUserServer
+
+        # a command that only ends by the watchdog must show up quickly in the harness
+        asimap.client.COMMAND_TIMEOUT = int(os.environ.get("PYVC_CMD_TIMEOUT", "4"))
 
         self.maildir = make_maildir(self.root, self.folders)
         self.server = await IMAPUserServer.new(self.maildir)
